@@ -62,6 +62,13 @@ def cases(rng, tier):
         c = "ATTRMAP " + " ".join(toks)
         INFO[c] = m
         out.append(c)
+    # keys that DNS-SD gives a meaning to (txtvers, ...) with absent, empty and non-empty values
+    import attrgen
+    for _ in range(800 if tier == "quick" else 8000):
+        m = attrgen.gen_map(rng, gen_text)
+        c = attrgen.case_of(m)
+        INFO[c] = m
+        out.append(c)
     for n in range(0, 301):
         out.append("CSTRNEW " + ((bytes([n & 0xFF]) * n).hex() or "-"))
     return out
@@ -69,6 +76,8 @@ def cases(rng, tier):
 
 def normalize(case, out):
     import re
+    if case.startswith("ATTRMAP"):
+        out = out.split(" | ")[0]
     return re.sub(r"ERR \w+", "ERR", out)
 
 
@@ -157,8 +166,10 @@ def oracle(case, out):
         if not fits:
             return None if out.startswith("ERR") else "an attribute longer than 255 bytes was accepted: %r" % out[:100]
         want = "OK " + attrs_tok({k.encode(): (None if v is None else v.encode()) for k, v in m.items()})
-        if out != want:
+        if out.split(" | ")[0] != want:
             return "map -> TXT -> attributes: got %r, expected %r" % (out[:300], want[:300])
+        import attrgen
+        return attrgen.packet_oracle(m, out)
     return None
 
 
